@@ -65,6 +65,9 @@ OPS = {
     "plain-dmath": ("$$a$$ (l) and 1$x$2 $ y $\n\n- [ ] t\n", {"myst_enable_extensions": ["dollarmath", "tasklist"]}),
     "scheme-class-link": ("[x](wiki:X){.featured #i} and [z](wiki:Z){.other}\n", WIKI),
     "scheme-plain-link": ("[y](wiki:Y) <wiki:A> [h](http://e)\n", WIKI),
+    "include-latin1": ("```{include} uni.md\n:encoding: latin-1\n```\n", {}),
+    "include-utf8": ("```{include} uni.md\n```\n\n```{include} uni.md\n:literal:\n```\n", {}),
+    "deprecated-ext": ("![a](b.png){width=10px}\n", {"myst_enable_extensions": ["attrs_image"]}),
     "tokenizer-soup": ("```{note}\n:class: \"a\\\n  b\"\n:name: |\n  x\n\nbody\n```\n", {}),
 }
 
@@ -124,6 +127,7 @@ class HistorySystem(System):
         self.dir.mkdir(exist_ok=True)
         (self.dir / "inc.md").write_text("# Inc\n\npara [^f]\n\n[^f]: foot\n\n![i](img.png)\n")
         (self.dir / "inc.rst").write_text("para\n")
+        (self.dir / "uni.md").write_bytes("caf\u00e9 \u00fcber\n".encode("utf8"))
         ents = "\n".join(f"n{i} py:function 1 p.html#$ -" for i in range(300)) + "\nabc std:label -1 i.html#abc Title\nABC std:label -1 i.html#ABC2 Other\n"
         (self.dir / "o.inv").write_bytes(b"# Sphinx inventory version 2\n# Project: P\n# Version: 1\n# The remainder of this file is compressed using zlib.\n" + zlib.compress(ents.encode()))
         # baselines: each operation FIRST in its own fresh child of this (pristine) parent
